@@ -145,6 +145,18 @@ def coq_case(name, p, om, B, F, big):
             f"        (tallyC O {emit.tol_lit(REL_TOL * scaleF, big)} {carr_lit(F.reshape(-1))}%Z (flat3 Fm))).\n")
 
 
+def used_object_deviation(p, om):
+    """input class 'used object': the control matrix asked from an object that has already computed (and cached) it
+    for a NEARBY grid (relative 9e-6 away: distinct frequencies) must still be the one for the requested frequencies.
+    Both values are outputs of the package that the property pins to the defining integral within 1e-6 of the largest
+    entry, so they may differ by at most 2e-6; returns the relative deviation."""
+    q = gen.fresh(p)
+    q.get_control_matrix(om * (1 + 9e-6))
+    Bu = np.asarray(q.get_control_matrix(om))
+    Bf = np.asarray(gen.fresh(p).get_control_matrix(om))
+    return float(np.abs(Bu - Bf).max() / max(np.abs(Bf).max(), 1e-300))
+
+
 def property_predicates(p, om, B, F, Fgen, tags):
     """property-level checks on the implementation itself; returns list of (observable, detail)"""
     bad = []
@@ -156,6 +168,10 @@ def property_predicates(p, om, B, F, Fgen, tags):
     err = np.abs(B - Bq).max() / max(scale, np.abs(Bq).max())
     if err > 1e-6:
         bad.append(('integral', 'control matrix differs from quadrature of the defining integral: rel %.3g' % err))
+    dev = used_object_deviation(p, om)
+    if dev > 3e-6:
+        bad.append(('used_object', 'control matrix returned by an object that had cached it for a nearby grid '
+                    '(omega*(1+9e-6)) differs from the one a fresh object returns for omega: rel %.3g' % dev))
     Fs = max(np.abs(F).max(), 1e-300)
     if np.abs(F - np.einsum('ako,bko->abo', B.conj(), B)).max() > 1e-10 * Fs:
         bad.append(('ff_def', 'fidelity filter function != sum_k conj(B_ak) B_bk'))
